@@ -4,6 +4,7 @@ import (
 	"bytes"
 	"encoding/binary"
 	"fmt"
+	"reflect"
 
 	"github.com/google/go-tdx-guest/abi"
 	pb "github.com/google/go-tdx-guest/proto/tdx"
@@ -323,6 +324,7 @@ func runC09(r *mc.Run) {
 		r.SectionDone(mc.Section{Name: "size-field-walk/" + b.name, Evaluations: int64(done), Exhaustive: done == len(walk)})
 	}
 	c09Retention(r, bases)
+	c09SharedBuffers(r, bases[0])
 	// (d) field identity: every single-bit mutant of a quote whose fields all differ.
 	for _, b := range bases {
 		n := len(b.raw) * 8
@@ -546,3 +548,137 @@ func c09Retention(r *mc.Run, bases []*c01base) {
 		Note: fmt.Sprintf("alphabet of %d operations (%d quotes x %v), every sequence of length %d", n, len(items), kinds, depth)})
 }
 
+
+// c09SharedBuffers: well-formed messages whose byte fields are carved out of ONE buffer, each slice keeping the
+// capacity up to the end of that buffer (what a caller gets who splits a received blob by hand): for every ordered
+// pair (A, B) of byte fields B lies directly behind A; plus all fields in wire order, in reverse wire order and
+// interleaved. Serialising such a message gives the v4 layout of its contents and leaves the message as it was.
+func c09SharedBuffers(r *mc.Run, b *c01base) {
+	q0, err := safeToProto(b.raw)
+	if err != nil {
+		r.HarnessError("C09 shared buffers: baseline does not parse: %v", err)
+		return
+	}
+	want, err := safeToBytes(q0)
+	if err != nil || !bytes.Equal(want, b.raw) {
+		r.HarnessError("C09 shared buffers: baseline does not round-trip")
+		return
+	}
+	// every bytes field of the message, addressed by a path of Go struct fields
+	type ref struct {
+		name string
+		at   func(q *pb.QuoteV4) *[]byte
+	}
+	var refs []ref
+	var walk func(prefix string, get func(q *pb.QuoteV4) reflect.Value)
+	walk = func(prefix string, get func(q *pb.QuoteV4) reflect.Value) {
+		v := get(q0)
+		for i := 0; i < v.NumField(); i++ {
+			i := i
+			f := v.Type().Field(i)
+			if !f.IsExported() {
+				continue
+			}
+			fv := v.Field(i)
+			name := prefix + f.Name
+			switch {
+			case fv.Kind() == reflect.Slice && fv.Type().Elem().Kind() == reflect.Uint8:
+				refs = append(refs, ref{name, func(q *pb.QuoteV4) *[]byte { return get(q).Field(i).Addr().Interface().(*[]byte) }})
+			case fv.Kind() == reflect.Slice && fv.Type().Elem().Kind() == reflect.Slice:
+				for k := 0; k < fv.Len(); k++ {
+					k := k
+					refs = append(refs, ref{fmt.Sprintf("%s[%d]", name, k), func(q *pb.QuoteV4) *[]byte { return get(q).Field(i).Index(k).Addr().Interface().(*[]byte) }})
+				}
+			case fv.Kind() == reflect.Ptr && fv.Type().Elem().Kind() == reflect.Struct && !fv.IsNil():
+				walk(name+".", func(q *pb.QuoteV4) reflect.Value { return get(q).Field(i).Elem() })
+			}
+		}
+	}
+	walk("", func(q *pb.QuoteV4) reflect.Value { return reflect.ValueOf(q).Elem() })
+	type layout struct {
+		name  string
+		order []int // fields carved from one buffer, in this order; the others keep their own allocation
+	}
+	var layouts []layout
+	for i := range refs {
+		for j := range refs {
+			if i != j {
+				layouts = append(layouts, layout{refs[i].name + "|" + refs[j].name, []int{i, j}})
+			}
+		}
+	}
+	all := make([]int, len(refs))
+	rev := make([]int, len(refs))
+	var inter []int
+	for i := range refs {
+		all[i], rev[i] = i, len(refs)-1-i
+	}
+	for i := 0; i < (len(refs)+1)/2; i++ {
+		inter = append(inter, i)
+		if j := len(refs) - 1 - i; j != i {
+			inter = append(inter, j)
+		}
+	}
+	layouts = append(layouts, layout{"all-fields-in-wire-order", all}, layout{"all-fields-in-reverse-order", rev}, layout{"all-fields-interleaved", inter})
+	done := r.Parallel(len(layouts)*2, func(n int) {
+		lay, slack := layouts[n/2], n%2 == 1
+		id := fmt.Sprintf("shared-buffer/%s/%s/slack=%v", b.name, lay.name, slack)
+		if !r.Want(id) {
+			return
+		}
+		q := proto.Clone(q0).(*pb.QuoteV4)
+		total := 0
+		for _, k := range lay.order {
+			total += len(*refs[k].at(q))
+		}
+		if slack {
+			total += 4096 // spare room behind the last field as well
+		}
+		buf := make([]byte, total)
+		for i := range buf {
+			buf[i] = 0xa5
+		}
+		off := 0
+		for _, k := range lay.order {
+			p := refs[k].at(q)
+			n := copy(buf[off:], *p)
+			*p = buf[off : off+n] // capacity runs to the end of the buffer
+			off += n
+		}
+		before := proto.Clone(q).(*pb.QuoteV4)
+		got, err := safeToBytes(q)
+		out := "ok"
+		switch {
+		case world.IsPanic(err):
+			r.Violate("shared-buffer:panic", id, "QuoteToAbiBytes crashes: "+errStr(err), nil)
+			out = "panic"
+		case err != nil:
+			r.Violate("shared-buffer:rejected", id, "a well-formed message is not serialised: "+errStr(err), nil)
+			out = "error"
+		case !bytes.Equal(got, want):
+			r.Violate("shared-buffer:wrong-bytes", id, "the serialisation of a well-formed message whose fields share one buffer is not the v4 layout of its contents", map[string]any{"first_difference_at": firstByteDiff(got, want)})
+			out = "wrong-bytes"
+		case !proto.Equal(q, before):
+			r.Violate("shared-buffer:message-changed", id, "serialising changed the message: "+firstDiff(before, q), nil)
+			out = "message-changed"
+		}
+		r.Eval(id, true, "shared-buffer:"+out)
+	})
+	r.SectionDone(mc.Section{Name: "shared-buffer-messages/" + b.name, Evaluations: int64(done), Exhaustive: done == len(layouts)*2,
+		Note: fmt.Sprintf("%d byte fields: every ordered pair adjacent in one buffer + 3 whole-message layouts, without / with spare room behind", len(refs))})
+}
+
+func firstByteDiff(a, b []byte) int {
+	for i := 0; i < len(a) && i < len(b); i++ {
+		if a[i] != b[i] {
+			return i
+		}
+	}
+	if len(a) != len(b) {
+		if len(a) < len(b) {
+			return len(a)
+		}
+		return len(b)
+	}
+	return -1
+}
